@@ -304,9 +304,11 @@ macro_rules! float_checks {
             /// asin, acos, atan, atan2 return the principal value in the caller's unit
             pub fn inverse(d: &mut Draw) -> Outcome {
                 let deg = d.bool();
-                let r = match d.int(0, 3) {
+                let r = match d.int(0, 4) {
                     0 => d.f64_in(-1.0, 1.0),
                     1 => d.pick(&[-1.0, 1.0, 0.0, 0.5, -0.5]),
+                    // next to +-1 (1e-15 .. 1e-2 inside), where a formula that passes through 1 - r^2 loses what r still has
+                    4 => (1.0 - d.f64_log(1e-15, 1e-2)) * if d.bool() { 1.0 } else { -1.0 },
                     _ => d.f64_slog(1e-6, 1.0),
                 } as F;
                 let t = d.f64_slog(1e-6, 1e6) as F;
@@ -322,12 +324,14 @@ macro_rules! float_checks {
                 } else {
                     (Rad::<F>::asin(r).0, Rad::<F>::acos(r).0, Rad::<F>::atan(t).0, Rad::<F>::atan2(ya, xa).0)
                 };
-                let near = |got: F, want: f64, scale: f64| (got as f64 - want).abs() <= 8.0 * EPS * scale.max(want.abs());
+                // the argument is a float, taken exactly: its principal inverse is a definite real number, and a result that is
+                // that number to rounding is within a few ulps of it *relative to the result* - wherever the argument lies,
+                // including next to +-1 where the function is steep (the steepness matters for a perturbed argument, and this one
+                // is not perturbed). 8 eps covers libm's last-bit error and the one multiplication of the Deg conversion
+                let near = |got: F, want: f64, _scale: f64| (got as f64 - want).abs() <= 8.0 * EPS * want.abs() + f64::MIN_POSITIVE;
                 let r64 = r as f64;
-                // derivative of asin/acos blows up at +-1: measure the error through sin / cos instead there
-                let cond = 1.0 / (1.0 - r64 * r64).max(1e-300).sqrt();
-                ensure!(near(g_asin, r64.asin() * k, k * (1.0 + cond * r64.abs())), "asin", "asin({:e}) = {:e}, principal value {:e}", r, g_asin, r64.asin() * k);
-                ensure!(near(g_acos, r64.acos() * k, k * (2.0 + cond * r64.abs())), "acos", "acos({:e}) = {:e}, principal value {:e}", r, g_acos, r64.acos() * k);
+                ensure!(near(g_asin, r64.asin() * k, k), "asin", "asin({:e}) = {:e}, principal value {:e}", r, g_asin, r64.asin() * k);
+                ensure!(near(g_acos, r64.acos() * k, k), "acos", "acos({:e}) = {:e}, principal value {:e}", r, g_acos, r64.acos() * k);
                 ensure!(near(g_atan, (t as f64).atan() * k, k), "atan", "atan({:e}) = {:e}, principal value {:e}", t, g_atan, (t as f64).atan() * k);
                 ensure!(near(g_atan2, (ya as f64).atan2(xa as f64) * k, k * 2.0), "atan2", "atan2({:e}, {:e}) = {:e}, principal value {:e}", ya, xa, g_atan2, (ya as f64).atan2(xa as f64) * k);
                 let quarter = 0.5 * PI64 * k * (1.0 + 4.0 * EPS);
